@@ -15,6 +15,16 @@ EXPLANATION = (
     "creation paths propagate the error before any effect of their own. Level queries step by the same tick (C02 level-walk).")
 
 
+def reach_errs(cq, reach):
+    """some Err(..) value is built in the reachable region (the error that is returned)"""
+    for blk in cq.fn.body.blocks:
+        if blk.i in reach and not blk.cleanup:
+            for st in blk.stmts:
+                if st.k == "assign" and st.rv.k == "agg" and st.rv.j.get("variant") == "Err":
+                    return True
+    return False
+
+
 def run(ctx):
     m = Model(ctx)
     book_fns = m.lib_fns("bourse_book")
@@ -28,7 +38,20 @@ def run(ctx):
             return "market sentinel"
         if e[0] == "field" and e[2] == "price" and (len(e) < 4 or e[3].endswith("Order")):
             return "existing order price"
+        from analysis.cfg import bool_atoms
+        from analysis.beta import normalize
+        n = normalize(m.w, e)
+        if n != e and n[0] == "phi":
+            rs = [grid_ok(q, a, guards, depth + 1) for a in n[1]]
+            if all(rs):
+                return "each alternative on-grid (%s)" % "; ".join(sorted(set(rs)))
+        expanded = list(guards)
         for a in guards:
+            # not(o is Some && P(o.Some.0)) together with the use of o's payload gives not P(payload)
+            if a[0] == "bool" and a[2] is False and a[1][0] == "pred_and" and a[1][1][0] == "isvariant" and a[1][1][2] == "Some" \
+                    and e[0] == "field" and e[1][0] == "downcast" and same(e[1][1], a[1][1][1]):
+                expanded.extend(bool_atoms(a[1][2], False))
+        for a in expanded:
             if a[0] == "cmp" and a[1] == "eq" and a[3][0] == "const" and a[3][3] == 0 and a[2][0] == "bin" and a[2][1] == "Rem" \
                     and same(a[2][2], e) and fld(a[2][3], m.f_tick) and field_chain(a[2][3])[0][0] == "param":
                 return "dominated by `%s %% tick_size == 0`" % render(e)
@@ -62,26 +85,34 @@ def run(ctx):
                 return "all alternatives on-grid"
         return None
 
-    # ---- every write of Order.price
+    # ---- every write of Order.price and every constructor call, judged on the INLINED views of the public
+    #      entries of the book (private helpers spliced in, so the guards of the whole call path are visible)
+    ctors = [f for f in ctx.prog.find(crate="bourse_book", adt="Order") if "-> bourse_book::types::Order" in f.sig and f.impl_trait is None]
     n = 0
-    for f in book_fns:
-        q = m.q(f)
+    covered = set()
+    for f in m.book_pub_fns():
+        q = m.qi(f)
+        covered |= set(q.fn.inlined_from) | {f.path}
         for w in q.writes(field="price", owner="Order"):
             n += 1
             r = grid_ok(q, w.val, q.cfg.guards_refined(w.b))
-            ctx.check(r is not None, "grid", "%s|price" % f.short(), w.loc(), "Order.price := %s is on the tick grid: %s" % (render(w.val), r),
-                      "Order.price := %s with no tick-size check on some path from the public API (off-grid price can rest in the book)" % render(w.val))
-    # ---- constructors called with a price
-    ctors = [f for f in ctx.prog.find(crate="bourse_book", adt="Order") if "-> bourse_book::types::Order" in f.sig and f.impl_trait is None]
-    for f in book_fns:
-        q = m.q(f)
+            ctx.check(r is not None, "grid", "%s|price" % f.short(), w.loc(), "via %s: Order.price := %s is on the tick grid: %s" % (f.name, render(w.val), r),
+                      "via %s: Order.price := %s with no tick-size check on some path from the public API (off-grid price can rest in the book)" % (f.name, render(w.val)))
         for c in q.calls():
             if c.target is not None and c.target in ctors and "price" in c.formals:
                 n += 1
                 a = c.arg_named("price")
                 r = grid_ok(q, a, c.rguards)
-                ctx.check(r is not None, "grid", "%s|ctor|%s" % (f.short(), c.name), c.loc(), "%s(price = %s) on the tick grid: %s" % (c.name, render(a), r),
-                          "%s called with price %s that is not checked against the tick size" % (c.name, render(a)))
+                ctx.check(r is not None, "grid", "%s|ctor|%s" % (f.short(), c.name), c.loc(), "via %s: %s(price = %s) on the tick grid: %s" % (f.name, c.name, render(a), r),
+                          "via %s: %s called with price %s that is not checked against the tick size" % (f.name, c.name, render(a)))
+    # every price writer / limit-constructor caller in the crate is attributed to some public entry
+    for f in book_fns:
+        if f.impl_trait is not None and "Deserialize" in (f.impl_trait or ""):
+            continue
+        q = m.q(f)
+        sites = list(q.writes(field="price", owner="Order")) + [c for c in q.calls() if c.target is not None and c.target in ctors and "price" in c.formals]
+        if sites and f.path not in covered and not f.path.startswith("bourse_book::market::") and "_serde" not in f.path:
+            ctx.bad("grid", "unattributed|" + f.short(), ctx.loc(f), "%s writes an order price but is not reachable (through private helpers) from a public OrderBook entry the grid analysis covers" % f.short())
     for f in ctors:
         if "price" not in f.params:
             r = m.q(f).ret()
@@ -95,39 +126,39 @@ def run(ctx):
 
     # ---- creation: rejecting slice has no effect; both arms guarded (siblings)
     create = m.book_fn("create_order")
-    cq = m.q(create)
-    rem_edges = []
-    for blk in create.body.blocks:
-        t = blk.term
-        if blk.cleanup or not t or t.k != "switch":
-            continue
-        for s in set(create.body.succs(blk.i)):
-            for a in cq.cfg.edge_atoms(blk.i, s):
-                if a[0] == "cmp" and a[1] == "ne" and a[3][0] == "const" and a[3][3] == 0 and a[2][0] == "bin" and a[2][1] == "Rem" and fld(a[2][3], m.f_tick):
-                    rem_edges.append((blk.i, s, a))
-    ctx.check(len(rem_edges) == 2, "create", "guards", ctx.loc(create), "create_order has a remainder test on both limit arms (bid and ask)",
-              "create_order has %d off-grid branches (expected one per side)" % len(rem_edges))
+    cq = m.qi(create)
+    create = cq.fn
+    def is_rem(a, op):
+        return a[0] == "cmp" and a[1] == op and a[3][0] == "const" and a[3][3] == 0 and a[2][0] == "bin" and a[2][1] == "Rem" and fld(a[2][3], m.f_tick)
+    off_edges = cq.cfg.edges_with(lambda a: is_rem(a, "ne"))
+    on_edges = cq.cfg.edges_with(lambda a: is_rem(a, "eq"))
+    ctx.check(bool(off_edges) and bool(on_edges), "create", "guards", ctx.loc(create),
+              "create_order tests `price %% tick_size` (%d off-grid / %d on-grid branch edges)" % (len(off_edges), len(on_edges)), "create_order has no remainder test of the price against the tick size")
+    # under the assumptions {price is Some, price % tick_size != 0}: nothing is written and every return is an error
+    none_edges = cq.cfg.edges_with(lambda a: a[0] == "variant" and a[2] == ("None",) and a[1][0] == "param" and a[1][2] == "price")
     summ = m.w.effects.summary(create)
-    for (b, s, a) in rem_edges:
-        blocks = cq.cfg.reach_from(s)
-        eff = [(loc, what) for (loc, blk, sp, what) in summ["sites"] if blk in blocks and loc.root[0] == "param"]
-        g = cq.cfg.guards(s)
-        side = [x[2][0] for x in g if x[0] == "variant" and x[1][0] == "param" and x[1][2] == "side"]
-        ctx.check(not eff, "create", "reject-no-effect|" + (side[0] if side else "?"), cq.loc(create.body.blocks[b].term.sp),
-                  "rejecting an off-grid %s price has no effect (no id consumed)" % (side[0] if side else "?"),
-                  "the rejecting branch still writes: %s" % eff)
-        # it returns Err
-        rets = [rb for rb in create.body.return_blocks() if rb in blocks]
-        ctx.check(bool(rets), "create", "reject-returns|" + (side[0] if side else "?"), ctx.loc(create), "the off-grid branch returns (an error)")
+    for side in ("Bid", "Ask"):
+        other = "Ask" if side == "Bid" else "Bid"
+        side_edges = cq.cfg.edges_with(lambda a: a[0] == "variant" and a[2] == (other,) and a[1][0] == "param" and a[1][2] == "side")
+        reach, _cuts = cq.cfg.reach_under(set(on_edges) | set(none_edges) | set(side_edges))
+        eff = [(repr(loc), what, sp["line"]) for (loc, blk, sp, what) in summ["sites"] if blk in reach and loc.root[0] == "param"]
+        ctx.check(not eff, "create", "reject-no-effect|" + side, ctx.loc(create),
+                  "an off-grid %s limit price writes nothing (no id consumed): no effect site is reachable under {price is Some, price %% tick != 0}" % side,
+                  "with an off-grid %s price create_order still writes: %s" % (side, eff))
+        rets = [rb for rb in create.body.return_blocks() if rb in reach]
+        from analysis.origin import strip
+        vals = [strip(cq.ev.local_val(0, cq.ev.term_at(rb))) for rb in rets]
+        ok_built = False
+        for blk in create.body.blocks:
+            if blk.i in reach and not blk.cleanup:
+                for st in blk.stmts:
+                    if st.k == "assign" and st.rv.k == "agg" and st.rv.j.get("variant") == "Ok" and st.rv.j.get("adt", "").endswith("Result") and "usize" in st.place.ty:
+                        ok_built = True
+        ctx.check(bool(rets) and not ok_built and reach_errs(cq, reach), "create", "reject-returns|" + side, ctx.loc(create), "an off-grid %s limit price returns an error (no Ok(id) is built on those paths)" % side,
+                  "with an off-grid %s price create_order may return %s" % (side, [render(v)[:60] for v in vals]))
     ret = cq.ret()
-    alts = ret[1] if ret[0] == "phi" else (ret,)
-    ctx.check(any(x[0] == "agg" and x[2].endswith("Result::Err") for x in alts) and any(x[0] == "agg" and x[2].endswith("Result::Ok") for x in alts),
-              "create", "result", ctx.loc(create), "create_order returns Err(..) or Ok(id)")
-    # the only table push is dominated by the passing edges
-    pushes = [c for c in cq.calls("push") if fld(c.args[0], m.f_orders)]
-    for p in pushes:
-        ok = all(p.b not in cq.cfg.reach_from(s) for (_b, s, _a) in rem_edges)
-        ctx.check(ok, "create", "push-after-check", p.loc(), "the order-table push is unreachable from the rejecting branches")
+    has_ok = any(x[0] == "agg" and x[2].endswith("Result::Ok") for x in walk(ret))
+    ctx.check(has_ok, "create", "result", ctx.loc(create), "create_order returns Ok(id) on the accepting paths")
 
     # ---- forwarding creation paths propagate the error before any own effect
     fw = [("Market", "create_order"), ("Market", "create_and_place_order"), ("OrderBook", "create_and_place_order")]
